@@ -9,11 +9,15 @@
 //
 // A history is a list of: a transaction arrives in the mempool | boot (build all three components on the
 // datastore as it is) | reap (Reaper.SubmitTxs) | produce (publishBlockInternal at a scripted instant) |
-// the process dies inside a boot / reap / produce after K atomic datastore writes.  After the history the
-// harness drains: boot if needed, then produce + reap rounds with non-decreasing instants until nothing is
-// in flight.  Go oracle (independent of the Coq model): every transaction GetTxs ever returned is in a
+// the process dies inside a boot / reap / produce after K atomic datastore writes | write attempt number K of a
+// boot / reap / produce returns an error ONCE and the process lives on (faultds.go: a transient datastore
+// fault; every write of every action is a fault point).  After the history the harness drains: boot if needed,
+// then produce + reap rounds with non-decreasing instants until nothing is in flight (a node whose production
+// is refused with a validation error — the store-height write of the last step failed — is restarted).  Go oracle (independent of the Coq model): every transaction GetTxs ever returned is in a
 // committed block, the non-empty committed blocks are the released batches in release order, and without
-// a crash no transaction is in the chain twice.  Writes cases_C11.v for Check/ReaperCheck.v + result.json.
+// a crash (and without a write fault that fired) no transaction is in the chain twice.  A batch dropped by a
+// step is attributed to a listed defect only by what THAT step did (clock before the last block; died in the
+// window; its block save was the write made to fail); any other dropped batch is a violation.  Writes cases_C11.v for Check/ReaperCheck.v + result.json.
 package c11
 
 import (
@@ -68,11 +72,14 @@ type Cfg struct {
 // K of its atomic datastore writes became durable (K >= the number of writes: it dies at the end of the call).
 // E (produce only): an ExecuteTxs call that follows the K-th write directly (before any further write is
 // attempted) still reaches the execution layer.
+// Fault: write attempt number K (from 0) of this boot/reap/produce returns an error; nothing of it reaches the
+// datastore; the process lives on and every later write succeeds (K >= the number of attempts: no fault).
 type Item struct {
 	T     string `json:"t"`
 	Tx    int    `json:"tx,omitempty"` // arrive: pool id (>= 1)
 	Ts    int64  `json:"ts,omitempty"` // produce: the sequencer's clock reading, ms after the base instant
 	Crash bool   `json:"crash,omitempty"`
+	Fault bool   `json:"fault,omitempty"`
 	K     int    `json:"k,omitempty"`
 	E     bool   `json:"e,omitempty"`
 }
@@ -227,6 +234,7 @@ type World struct {
 	Signer  signer.Signer
 	RootDir string
 	DS      *crashds.DS
+	flt     *faultDS
 	cnt     *countds
 	mainKV  ds.Batching
 	ctx     context.Context
@@ -245,6 +253,8 @@ type World struct {
 	released   []release
 	maxTs      int64
 	crashes    int
+	faults     int             // write faults that fired
+	staleKeys  map[string]bool // /batches records whose Delete was made to fail: handed out by the running process, still on disk
 	or         oracle
 }
 
@@ -255,10 +265,11 @@ type proc struct {
 }
 
 type release struct {
-	item    int
-	txs     []int
-	regress bool // the clock reading of the releasing step was before the last block's time
-	lostWin bool // the releasing step died after the delete and before a block save
+	item      int
+	txs       []int
+	regress   bool // the clock reading of the releasing step was before the last block's time
+	lostWin   bool // the releasing step died after the delete and before a block save
+	faultSave bool // the releasing step's block save was made to fail and it saved no block
 }
 
 var logger = func() logging.EventLogger {
@@ -269,7 +280,7 @@ var logger = func() logging.EventLogger {
 }()
 
 func NewWorld(r *mrand.Rand, cfg Cfg) (*World, error) {
-	w := &World{Cfg: cfg, ctx: context.Background(), hashID: map[string]int{}, batchOfKey: map[string][]int{}, maxTs: cfg.GOff, now: cfg.GOff}
+	w := &World{Cfg: cfg, ctx: context.Background(), hashID: map[string]int{}, batchOfKey: map[string][]int{}, staleKeys: map[string]bool{}, maxTs: cfg.GOff, now: cfg.GOff}
 	w.Pool = make([][]byte, poolSize+1)
 	seen := map[string]bool{}
 	for i := 1; i <= poolSize; i++ {
@@ -314,7 +325,8 @@ func NewWorld(r *mrand.Rand, cfg Cfg) (*World, error) {
 	}
 	w.RootDir = dir
 	w.DS = crashds.New()
-	w.cnt = &countds{Batching: w.DS}
+	w.flt = newFaultDS(w.DS)
+	w.cnt = &countds{Batching: w.flt}
 	// node/full.go:87: mainKV := newPrefixKV(database, RollkitPrefix)
 	w.mainKV = ktds.Wrap(w.cnt, ktds.PrefixTransform{Prefix: ds.NewKey(node.RollkitPrefix)})
 	w.mem = &mempool{w: w}
@@ -369,6 +381,7 @@ func (w *World) boot() (*proc, error) {
 
 // Shape of one atomic write that reached the datastore.
 type Shape struct {
+	Failed bool   // the attempt that was made to fail (nothing reached the datastore)
 	K      string // qput qdel meta block state height seen other
 	Txs    []int
 	N      uint64
@@ -379,8 +392,8 @@ type Shape struct {
 }
 
 type Obs struct {
-	Res    string // arrived boot-ok boot-fail reaped committed skipped e-time e-other not-running crashed panic
-	Writes []Shape
+	Res    string // arrived boot-ok boot-fail reaped committed skipped e-time e-store e-validate e-other not-running crashed panic
+	Writes []Shape // the writes that reached the datastore; a write-fault item: plus, at its place, the failed attempt (Failed)
 	ErrTxt string
 }
 
@@ -477,13 +490,35 @@ func (w *World) Run(idx int, it Item) (obs Obs) {
 		w.execAfterDeath, w.execAfterDeathUsed = it.E, false
 		w.attemptsAtDeath = w.cnt.attempts + it.K
 	}
+	if it.Fault {
+		w.flt.Arm(it.K)
+	}
+	var failed *Shape // the write attempt that was made to fail, if the action got that far
+	disarm := func() {
+		if !it.Fault || failed != nil {
+			return
+		}
+		if fw := w.flt.Disarm(); fw != nil {
+			sh := w.shapeOf(*fw)
+			sh.Failed = true
+			failed = &sh
+			w.faults++
+			if sh.K == "qdel" {
+				w.staleKeys[fw.Prims[0].Key] = true
+			}
+		}
+	}
 	switch it.T {
 	case "boot":
 		w.nd = nil
+		w.staleKeys = map[string]bool{} // Load puts every record back into the in-memory queue
 		p, err := w.boot()
+		disarm()
 		if err != nil {
 			obs.Res, obs.ErrTxt = "boot-fail", err.Error()
-			w.or.fail("boot-failed", fmt.Sprintf("item %d: the node does not start: %v", idx, err), idx)
+			if failed == nil || !errors.Is(err, ErrFault) {
+				w.or.fail("boot-failed", fmt.Sprintf("item %d: the node does not start: %v", idx, err), idx)
+			}
 		} else {
 			obs.Res = "boot-ok"
 			w.nd = p
@@ -494,6 +529,7 @@ func (w *World) Run(idx int, it Item) (obs Obs) {
 			break
 		}
 		w.nd.reaper.SubmitTxs()
+		disarm()
 		obs.Res = "reaped"
 	case "produce":
 		if w.nd == nil {
@@ -504,6 +540,7 @@ func (w *World) Run(idx int, it Item) (obs Obs) {
 		last, haveLast := w.lastBlockTime()
 		before, _ := w.Store().Height(w.ctx)
 		err := w.nd.m.VerifPublishBlock(w.ctx)
+		disarm()
 		after, _ := w.Store().Height(w.ctx)
 		switch {
 		case err == nil && after == before+1:
@@ -512,6 +549,10 @@ func (w *World) Run(idx int, it Item) (obs Obs) {
 			obs.Res = "skipped"
 		case err != nil && strings.Contains(err.Error(), "timestamp is not monotonically increasing"):
 			obs.Res, obs.ErrTxt = "e-time", err.Error()
+		case err != nil && failed != nil && errors.Is(err, ErrFault):
+			obs.Res, obs.ErrTxt = "e-store", err.Error() // the step returned the injected write error
+		case err != nil && strings.Contains(err.Error(), "failed to validate block"):
+			obs.Res, obs.ErrTxt = "e-validate", err.Error()
 		default:
 			obs.Res = "e-other"
 			if err != nil {
@@ -530,8 +571,12 @@ func (w *World) Run(idx int, it Item) (obs Obs) {
 				hasBlock = true
 			}
 		}
+		if failed != nil && failed.K == "qdel" { // handed out by GetNextBatch although the Delete of its record failed
+			hasDel, del = true, failed.Txs
+		}
 		if hasDel {
-			w.released = append(w.released, release{item: idx, txs: del, regress: haveLast && it.Ts < last, lostWin: it.Crash && !hasBlock})
+			w.released = append(w.released, release{item: idx, txs: del, regress: haveLast && it.Ts < last, lostWin: it.Crash && !hasBlock,
+				faultSave: failed != nil && failed.K == "block" && !hasBlock})
 		}
 	default:
 		panic("bad item " + it.T)
@@ -544,8 +589,15 @@ func (w *World) Run(idx int, it Item) (obs Obs) {
 			obs = Obs{Res: "crashed"}
 		}
 	}
-	for _, wr := range w.DS.Log[start:] {
+	disarm()
+	for i, wr := range w.DS.Log[start:] {
+		if failed != nil && i == it.K {
+			obs.Writes = append(obs.Writes, *failed)
+		}
 		obs.Writes = append(obs.Writes, w.shapeOf(wr))
+	}
+	if failed != nil && len(w.DS.Log[start:]) <= it.K {
+		obs.Writes = append(obs.Writes, *failed)
 	}
 	return obs
 }
@@ -565,8 +617,9 @@ type Final struct {
 	Seen     []int    // sorted
 	Mem      []int
 	Taken    []int   // all transactions GetTxs returned, in order
-	Released [][]int // the batches whose queue record was deleted, in order
+	Released [][]int // the batches the sequencer handed out (queue record deleted, or its Delete made to fail), in order
 	Up       bool
+	queued   int // records under /batches that the running process still holds in its in-memory queue
 }
 
 func (w *World) Final() Final {
@@ -596,6 +649,9 @@ func (w *World) Final() Final {
 			if proto.Unmarshal(p.Value, &b) == nil {
 				f.Queue = append(f.Queue, w.txIDs(b.Txs))
 			}
+			if !w.staleKeys[p.Key] {
+				f.queued++
+			}
 		case strings.HasPrefix(p.Key, "/0/") && len(p.Key) == 3+64:
 			if id, ok := w.hashID[p.Key[3:]]; ok {
 				f.Seen = append(f.Seen, id)
@@ -621,7 +677,7 @@ func (w *World) quiet() bool {
 		return false
 	}
 	f := w.Final()
-	if len(f.Queue) > 0 || uint64(len(f.Blocks)) > f.TH {
+	if f.queued > 0 || uint64(len(f.Blocks)) > f.TH {
 		return false
 	}
 	for _, id := range f.Mem {
@@ -654,6 +710,7 @@ const (
 	sigF12     = "regressed-timestamp-nonempty-batch-dropped"
 	sigF13     = "crash-between-queue-delete-and-early-block-save"
 	sigDupReap = "same-bytes-twice-in-one-reap-included-twice"
+	sigFSave   = "store-fault-at-early-block-save-after-queue-delete"
 )
 
 func eqInts(a, b []int) bool {
@@ -702,14 +759,18 @@ func (w *World) judge(f Final, quiesced bool) {
 		if r.lostWin {
 			return sigF13
 		}
+		if r.faultSave {
+			return sigFSave
+		}
 		if r.regress {
 			return sigF12
 		}
-		reg, win := false, false
+		reg, win, fs := false, false, false
 		for _, x := range w.released {
 			if eqInts(x.txs, r.txs) {
 				reg = reg || x.regress
 				win = win || x.lostWin
+				fs = fs || x.faultSave
 			}
 		}
 		switch {
@@ -717,6 +778,8 @@ func (w *World) judge(f Final, quiesced bool) {
 			return sigF12
 		case win:
 			return sigF13
+		case fs:
+			return sigFSave
 		}
 		return ""
 	}
@@ -731,6 +794,8 @@ func (w *World) judge(f Final, quiesced bool) {
 			w.or.fail(sigF12, fmt.Sprintf("item %d: the batch %v was taken from the queue (record deleted) with a clock reading before the last block's time; publishBlockInternal returned an error and the batch is in no block (transactions lost: %v)", r.item, r.txs, lost), r.item)
 		} else if c == sigF13 {
 			w.or.fail(sigF13, fmt.Sprintf("item %d: the process died after the queue record of batch %v was deleted and before the block was saved; after the restart the batch is in no block (transactions lost: %v)", r.item, r.txs, lost), r.item)
+		} else if c == sigFSave {
+			w.or.fail(sigFSave, fmt.Sprintf("item %d: the batch %v was taken from the queue (record deleted), then the early SaveBlockData of the block built from it returned a (transient) error; publishBlockInternal returned the error and the batch is in no block (transactions lost: %v)", r.item, r.txs, lost), r.item)
 		} else {
 			w.or.fail("released-batch-not-included", fmt.Sprintf("item %d: released batch %v is in no committed block", r.item, r.txs), r.item)
 		}
@@ -752,8 +817,9 @@ func (w *World) judge(f Final, quiesced bool) {
 			w.or.fail("taken-transaction-not-in-chain", fmt.Sprintf("transaction %d was returned by GetTxs but is in no committed block after quiescence (and in no batch dropped by a listed defect)", t), -1)
 		}
 	}
-	// (3) without a crash nothing is included twice
-	if w.crashes == 0 {
+	// (3) without a crash nothing is included twice (a write fault that fired leaves the same traces as a crash: a
+	// hand-off whose mark failed, a handed-out batch whose record stayed)
+	if w.crashes == 0 && w.faults == 0 {
 		for t, c := range count {
 			if c > 1 {
 				twice := false
@@ -811,6 +877,9 @@ func runCase(seed int64, c int, cfg Cfg, hist []Item) (*caseRun, error) {
 	q := w.quiet()
 	for i := 0; i < limit && !q; i++ {
 		do(Item{T: "produce", Ts: w.maxTs})
+		if cr.obs[len(cr.obs)-1].Res == "e-validate" {
+			do(Item{T: "boot"}) // the running node refuses to produce (its state is above the store height): restart it
+		}
 		do(Item{T: "reap"})
 		q = w.quiet()
 	}
@@ -848,13 +917,22 @@ func itemCoq(it Item) string {
 		if it.Crash {
 			return fmt.Sprintf("ICrash ABoot %d false", it.K)
 		}
+		if it.Fault {
+			return fmt.Sprintf("IFault ABoot %d", it.K)
+		}
 		return "IRun ABoot"
 	case "reap":
 		if it.Crash {
 			return fmt.Sprintf("ICrash AReap %d false", it.K)
 		}
+		if it.Fault {
+			return fmt.Sprintf("IFault AReap %d", it.K)
+		}
 		return "IRun AReap"
 	case "produce":
+		if it.Fault {
+			return fmt.Sprintf("IFault (AProduce %s) %d", vgen.Z(it.Ts), it.K)
+		}
 		if it.Crash {
 			return fmt.Sprintf("ICrash (AProduce %s) %d %s", vgen.Z(it.Ts), it.K, vgen.Bool(it.E))
 		}
@@ -863,9 +941,14 @@ func itemCoq(it Item) string {
 	return "IBad"
 }
 
-var resCode = map[string]int{"arrived": 0, "boot-ok": 1, "reaped": 2, "committed": 3, "skipped": 4, "e-time": 5, "not-running": 6, "crashed": 7}
+var resCode = map[string]int{"arrived": 0, "boot-ok": 1, "reaped": 2, "committed": 3, "skipped": 4, "e-time": 5, "not-running": 6, "crashed": 7,
+	"e-store": 9, "e-validate": 10, "boot-fail": 11}
 
 func shapeCoq(s Shape) string {
+	if s.Failed {
+		s.Failed = false
+		return "WFail (" + shapeCoq(s) + ")"
+	}
 	switch s.K {
 	case "qput":
 		return "WQPut " + txsCoq(s.Txs)
@@ -930,6 +1013,8 @@ func gen(r *mrand.Rand, tier string, c int) (Cfg, []Item) {
 	crashPct := []int{0, 0, 6, 14}[r.Intn(4)]  // half of the cases are crash-free (the no-duplicate clause)
 	regressPct := []int{0, 0, 0, 8}[r.Intn(4)] // a quarter of the cases let the clock step back
 	dupPct := []int{0, 5, 25}[r.Intn(3)]       // repeats of bytes that arrived before
+	faultPct := []int{0, 0, 0, 12, 24}[r.Intn(5)] // transient write faults (30% of the cases have neither crash nor fault)
+	produceK := []int{0, 0, 1, 1, 1, 2, 2, 3, 3, 4, 5, 6} // the write attempt of a produce that fails: every one of its writes, the early ones more often
 	freshNext := 1
 	var arrived []int
 	cur := cfg.GOff
@@ -965,6 +1050,8 @@ func gen(r *mrand.Rand, tier string, c int) (Cfg, []Item) {
 			it := Item{T: "reap"}
 			if r.Intn(100) < crashPct {
 				it.Crash, it.K = true, r.Intn(5)
+			} else if r.Intn(100) < faultPct {
+				it.Fault, it.K = true, r.Intn(5)
 			}
 			h = append(h, it)
 		case x < 94:
@@ -982,14 +1069,18 @@ func gen(r *mrand.Rand, tier string, c int) (Cfg, []Item) {
 			}
 			if r.Intn(100) < crashPct {
 				it.Crash, it.K, it.E = true, r.Intn(8), r.Intn(2) == 0
+			} else if r.Intn(100) < faultPct {
+				it.Fault, it.K = true, produceK[r.Intn(len(produceK))]
 			}
 			h = append(h, it)
 		default:
 			it := Item{T: "boot"}
 			if r.Intn(100) < crashPct {
 				it.Crash, it.K = true, r.Intn(3)
+			} else if r.Intn(100) < faultPct {
+				it.Fault, it.K = true, r.Intn(2)
 			}
-			down = it.Crash
+			down = it.Crash || it.Fault // a start-up whose write fails leaves no process
 			h = append(h, it)
 		}
 	}
@@ -1064,6 +1155,19 @@ func TestVerif(t *testing.T) {
 				k += "-crash"
 				res.Count(fmt.Sprintf("crash:%s-k=%d", it.T, it.K))
 			}
+			if it.Fault {
+				k += "-fault"
+				what := "none(fewer-writes)"
+				if cr.obs[i].Res == "not-running" {
+					what = "node-down"
+				}
+				for _, sh := range cr.obs[i].Writes {
+					if sh.Failed {
+						what = sh.K
+					}
+				}
+				res.Count(fmt.Sprintf("fault:%s:failed-write=%s:%s", it.T, what, cr.obs[i].Res))
+			}
 			res.Count(k)
 			res.Count("result:" + it.T + ":" + cr.obs[i].Res)
 			if it.T == "reap" && !it.Crash && cr.obs[i].Res == "reaped" {
@@ -1078,12 +1182,18 @@ func TestVerif(t *testing.T) {
 		if crashFree {
 			res.Count("history:crash-free")
 		}
+		if crashFree && cr.w.faults == 0 {
+			res.Count("history:crash-free-and-no-write-fault-fired")
+		}
 		for _, r := range cr.w.released {
 			if r.regress {
 				res.Count("history:nonempty-batch-released-with-regressed-clock")
 			}
 			if r.lostWin {
 				res.Count("history:died-between-queue-delete-and-block-save")
+			}
+			if r.faultSave {
+				res.Count("history:early-block-save-failed-after-queue-delete")
 			}
 		}
 		res.Count(fmt.Sprintf("chain-length:%s", bucket(cr.fin.TH)))
@@ -1129,7 +1239,7 @@ func TestVerif(t *testing.T) {
 		cr.w.Close()
 	}
 	res.Distinct = len(distinct)
-	res.Rule = "queue bound from {1,1,2,3,unlimited,1000}; optional first boot; 4..40 (quick) / 4..94 (thorough) items: 34% a transaction arrives (fresh bytes, or with a per-case probability of 0/5/25% bytes that arrived before; pool of 9 incl. the empty and a 20 kB transaction), 26% reap, 34% produce (clock +1..3000 ms, 8% equal, in a quarter of the cases 8% stepping back), 6% reboot; per-case crash rate 0/0/6/14% of the boots, reaps and produces, dying after k = 0..2 / 0..4 / 0..7 of their datastore writes (produce: with or without the ExecuteTxs call that follows the last durable write); then the drain (boot if down, produce + reap rounds until nothing is in flight); non-trivial = at least one hand-off and one non-empty committed block; distinct = distinct (configuration, history)"
+	res.Rule = "queue bound from {1,1,2,3,unlimited,1000}; optional first boot; 4..40 (quick) / 4..94 (thorough) items: 34% a transaction arrives (fresh bytes, or with a per-case probability of 0/5/25% bytes that arrived before; pool of 9 incl. the empty and a 20 kB transaction), 26% reap, 34% produce (clock +1..3000 ms, 8% equal, in a quarter of the cases 8% stepping back), 6% reboot; per-case crash rate 0/0/6/14% of the boots, reaps and produces, dying after k = 0..2 / 0..4 / 0..7 of their datastore writes (produce: with or without the ExecuteTxs call that follows the last durable write); per-case write-fault rate 0/0/0/12/24% of the remaining boots, reaps and produces: write attempt k = 0..1 / 0..4 / 0..6 (produce: early writes more often) returns an error once, the process lives on; corpus: a fault at every write of a batch-taking produce, of an empty produce, of a pending-block produce, of a hand-off and of a start-up; then the drain (boot if down, produce + reap rounds until nothing is in flight, restart of a node that refuses to produce with a validation error); non-trivial = at least one hand-off and one non-empty committed block; distinct = distinct (configuration, history)"
 	res.Cases = len(cases)
 	header := "From Coq Require Import NArith ZArith List Bool.\nFrom Verif Require Import Model.Reaper Check.ReaperCheck."
 	path := filepath.Join(e.Out, "cases_C11.v")
